@@ -48,7 +48,7 @@ def in_body(lines, i):
 def v01(lines, lo, hi):
     for i in range(lo, hi):
         if lines[i].kind in ("simple", "return", "jump", "ctrl", "decl", "proto", "global", "funcsig", "rbrace", "lbrace",
-                             "field", "typedef", "tbend", "tbhead", "enumr", "define", "include"):
+                             "field", "typedef", "tbend", "tbhead", "enumr", "define", "include", "cont", "wsimple", "wreturn", "wctrl"):
             yield _with(lines, i, _mod(lines[i], lines[i].pieces + [P("sp", " ")])), i, lines[i].kind
 
 
@@ -73,7 +73,7 @@ def v03(lines, lo, hi):
 def v04(lines, lo, hi):
     for i in range(lo, hi):
         l = lines[i]
-        if l.depth >= 1 and l.kind in ("simple", "return", "jump", "ctrl", "lbrace", "rbrace") and l.pieces[0].tag == "ind":
+        if l.depth >= 1 and l.kind in ("simple", "return", "jump", "ctrl", "lbrace", "rbrace", "cont", "wsimple", "wreturn", "wctrl") and l.pieces[0].tag == "ind":
             yield _with(lines, i, _mod(l, l.pieces[1:])), i, l.kind
 
 
@@ -81,7 +81,7 @@ def v04(lines, lo, hi):
 def v05(lines, lo, hi):
     for i in range(lo, hi):
         l = lines[i]
-        if l.depth >= 1 and l.kind in ("simple", "return", "jump", "ctrl", "lbrace", "rbrace"):
+        if l.depth >= 1 and l.kind in ("simple", "return", "jump", "ctrl", "lbrace", "rbrace", "cont", "wsimple", "wreturn", "wctrl"):
             yield _with(lines, i, _mod(l, [P("ind", "\t")] + l.pieces)), i, l.kind
 
 
